@@ -5,3 +5,4 @@ import PlushModel.Ast
 import PlushModel.Printer
 import PlushModel.Parser
 import PlushModel.Dump
+import PlushModel.Render
